@@ -148,6 +148,16 @@ add("C10", "Hypothesis-generated boxes / keys / noise settings / network outputs
     "float32; bounds |b| <= ~2e3, range >= 1e-3; 4-ulp allowance only for unclipped quantities; PETS needs n_samples >= 10.",
     "DESIGN.md §5 C10")
 
+add("C05", "Hypothesis-generated batches / parameters / optimizers per update routine; byte-wise before/after snapshot of every reachable module, optimizer and input (non-interference oracle) plus a gradient-based must-change oracle; post-run aliasing checks on short training histories",
+    "For 24 update routines (train_step_with_loss x 8 losses, DDPG/SAC/TD7/MR.Q/PPO/A2C/REINFORCE/actor-critic updates, SALE and encoder "
+    "updates, entropy control, TD7 _train_step, the PETS ensemble) and pure evaluations: everything outside the documented-to-train set "
+    "must be byte-identical after the call, inside it only nnx.Param leaves may change, and every parameter whose optimizer step is "
+    "float32-representable must have changed. A history sub-check runs short training routines and demands that components returned under "
+    "different roles share no storage and obey the same isolation when the update routines are applied to the returned state.",
+    "Batch size 1 excluded (several losses reject it loudly); learning rate 0 not generated; which optimizer steps a module is not "
+    "checked; step-by-step isolation inside whole training loops only through td7._train_step and the post-run checks.",
+    "DESIGN.md §5 C05")
+
 NOT_APPLICABLE = {}
 
 
